@@ -1628,3 +1628,83 @@ Example outside_classes :
                 (CBin (EAdd x0 x0) OLt (EAdd (EMul x1 (EVal 3)) (EVal 1))) in
   kf_or_not (fold_cons c) = false.
 Proof. vm_compute. auto. Qed.
+
+(* ---- and_all / or_all / all_of / any_of (runtime_api: Constraint::and_all / or_all and the free functions) ---- *)
+Lemma and_all_none : forall cs, c_and_all cs = None <-> cs = [].
+Proof. intros [|c r]; simpl; split; intro H; try reflexivity; discriminate. Qed.
+Lemma or_all_none : forall cs, c_or_all cs = None <-> cs = [].
+Proof. intros [|c r]; simpl; split; intro H; try reflexivity; discriminate. Qed.
+Lemma all_of_is_and_all : forall cs, c_all_of cs = c_and_all cs. Proof. reflexivity. Qed.
+Lemma any_of_is_or_all : forall cs, c_any_of cs = c_or_all cs. Proof. reflexivity. Qed.
+
+(* the chain holds iff every member holds (a member with an undefined modulo makes it undefined: never a solution) *)
+Lemma fold_and_holds : forall r c a, holds (fold_left CAnd r c) a = holds c a && forallb (fun x => holds x a) r.
+Proof.
+  induction r as [|x r IH]; intros c a; simpl; [rewrite andb_true_r; reflexivity|].
+  rewrite IH. rewrite andb_assoc. f_equal. unfold holds. simpl.
+  destruct (eval_cons c a) as [[|]|]; destruct (eval_cons x a) as [[|]|]; reflexivity.
+Qed.
+Theorem and_all_holds : forall cs c a, c_and_all cs = Some c -> holds c a = forallb (fun x => holds x a) cs.
+Proof. intros [|c0 r] c a H; [discriminate|]. inversion H; subst. simpl. apply fold_and_holds. Qed.
+
+Definition defined (c : cons) (a : asg) : bool := match eval_cons c a with Some _ => true | None => false end.
+Lemma fold_or_eval : forall r c a,
+  eval_cons (fold_left COr r c) a =
+  if defined c a && forallb (fun x => defined x a) r then Some (holds c a || existsb (fun x => holds x a) r) else None.
+Proof.
+  induction r as [|x r IH]; intros c a; simpl.
+  - unfold defined, holds. destruct (eval_cons c a) as [[|]|]; reflexivity.
+  - rewrite IH. unfold defined, holds. simpl.
+    destruct (eval_cons c a) as [[|]|]; destruct (eval_cons x a) as [[|]|]; simpl; try reflexivity;
+      destruct (forallb _ r); reflexivity.
+Qed.
+(* the arithmetic reading of or_all: defined when every member is, true when some member holds *)
+Theorem or_all_eval : forall cs c a, c_or_all cs = Some c ->
+  eval_cons c a = if forallb (fun x => defined x a) cs then Some (existsb (fun x => holds x a) cs) else None.
+Proof. intros [|c0 r] c a H; [discriminate|]. inversion H; subst. simpl. apply fold_or_eval. Qed.
+
+(* lowering: m.new(and_all(cs)) materialises the members one after the other, like posting them separately *)
+Lemma fold_and_materialize : forall r c st,
+  materialize (fold_left CAnd r c) st = fold_left (fun st x => materialize x st) r (materialize c st).
+Proof. induction r as [|x r IH]; intros c st; simpl; [reflexivity|]. rewrite IH. reflexivity. Qed.
+Theorem and_all_materialize : forall cs c st, c_and_all cs = Some c ->
+  materialize c st = fold_left (fun st x => materialize x st) cs st.
+Proof. intros [|c0 r] c st H; [discriminate|]. inversion H; subst. simpl. apply fold_and_materialize. Qed.
+Lemma fold_and_kf : forall r c, kf_or_not (fold_left CAnd r c) = kf_or_not c || existsb kf_or_not r.
+Proof. induction r as [|x r IH]; intros c; simpl; [rewrite orb_false_r; reflexivity|]. rewrite IH. simpl. rewrite orb_assoc. reflexivity. Qed.
+Theorem and_all_kf : forall cs c, c_and_all cs = Some c -> kf_or_not c = existsb kf_or_not cs.
+Proof. intros [|c0 r] c H; [discriminate|]. inversion H; subst. simpl. apply fold_and_kf. Qed.
+Lemma fold_and_impl : forall r c a, impl_cons (fold_left CAnd r c) a = impl_cons c a && forallb (fun x => impl_cons x a) r.
+Proof. induction r as [|x r IH]; intros c a; simpl; [rewrite andb_true_r; reflexivity|]. rewrite IH. simpl. rewrite andb_assoc. reflexivity. Qed.
+Theorem and_all_impl : forall cs c a, c_and_all cs = Some c -> impl_cons c a = forallb (fun x => impl_cons x a) cs.
+Proof. intros [|c0 r] c a H; [discriminate|]. inversion H; subst. simpl. apply fold_and_impl. Qed.
+
+(* or_all of three or more members (and of two outside `x == a || x == b`) is in the known class D3:
+   the chain's outer node has an Or as its left child, which is not the special pattern *)
+Lemma fold_or_nested_kf : forall r a b c, kf_or_not (fold_left COr r (COr (COr a b) c)) = true.
+Proof. induction r as [|x r IH]; intros a b c; [reflexivity|]. simpl fold_left. apply IH. Qed.
+Theorem or_all_kf : forall c0 c1 c2 r c, c_or_all (c0 :: c1 :: c2 :: r) = Some c -> kf_or_not c = true.
+Proof. intros c0 c1 c2 r c H. inversion H; subst. simpl fold_left. apply fold_or_nested_kf. Qed.
+
+(* D3 through any_of: x in 0..3, any_of([x <= 0, x == 2, x >= 3]): x = 0 satisfies the tree, the lowered model
+   (all three members posted) has no solution *)
+Lemma any_of_refuted : exists decls cs c a s ps,
+  c_any_of cs = Some c /\ kf_or_not (fold_cons c) = true /\ lower (build (decls ++ [SNew c])) = LOk s ps /\
+  inst a (map decl_dom decls) /\ eval_cons c a = Some true /\
+  ~ (exists a', agree (length decls) a a' /\ inst a' s /\ allsat ps a').
+Proof.
+  exists [SInt 0 3], [CBin x0 OLe (EVal 0); CBin x0 OEq (EVal 2); CBin x0 OGe (EVal 3)],
+    (COr (COr (CBin x0 OLe (EVal 0)) (CBin x0 OEq (EVal 2))) (CBin x0 OGe (EVal 3))), (fun _ => 0).
+  eexists; eexists. split; [reflexivity|]. split; [reflexivity|]. split; [vm_compute; reflexivity|].
+  split; [intros v Hv; simpl in Hv; destruct v; [simpl; auto|lia]|]. split; [reflexivity|].
+  refute_by_exact [SInt 0 3] [SNew (COr (COr (CBin x0 OLe (EVal 0)) (CBin x0 OEq (EVal 2))) (CBin x0 OGe (EVal 3)))]
+    (eq_refl : lower (build ([SInt 0 3] ++ [SNew (COr (COr (CBin x0 OLe (EVal 0)) (CBin x0 OEq (EVal 2))) (CBin x0 OGe (EVal 3)))])) = LOk _ _).
+Qed.
+(* all_of is faithful: x in 0..3, all_of([x >= 1, x <= 2, x != 1]) lowers to three propagators whose meaning is the conjunction *)
+Example all_of_example :
+  exists c, c_all_of [CBin x0 OGe (EVal 1); CBin x0 OLe (EVal 2); CBin x0 ONe (EVal 1)] = Some c /\ kf_or_not (fold_cons c) = false /\
+    forall a, holds c a = (1 <=? a 0%nat) && (a 0%nat <=? 2) && negb (a 0%nat =? 1).
+Proof.
+  eexists. split; [reflexivity|]. split; [reflexivity|]. intro a. unfold holds. simpl. unfold x0. simpl.
+  destruct (1 <=? a 0%nat); destruct (a 0%nat <=? 2); destruct (a 0%nat =? 1); reflexivity.
+Qed.
